@@ -304,11 +304,37 @@ CLAIMED = {
 }
 
 PENDING = "not built yet in this round (planned, see DESIGN.md section 4); no check is registered, so nothing is claimed"
+CLAIMED["C17"] = dict(
+    text="The model file formats are written as a TLA+ specification (MFBytes/MFFormats: byte-level readers for the s3 "
+         "container with byte-order word and checksum, means/variances, transition matrices, mixture weights, feature "
+         "transform, the senone dump's string format, the binary model definition; Loadable3 follows acmod_load_am's order "
+         "and the ptm / s2_semi / ms cascade and answers: still a model, must be refused, or cannot tell from the bytes "
+         "shown). MFWrite writes four miniature but complete models byte by byte; MFDamage derives from the field list the "
+         "reader itself returns every truncation length, file missing / extended, seven corruption classes of every count, "
+         "dimension and length, byte-order and header damage, checksum and data bit flips, well-formed sibling files of "
+         "other dimensions. TLC enumerates all 5011 cases (ModelInit, 10k states; invariants: the instances are models and "
+         "are read to their last byte, every proper prefix is refused, nothing is undecided on fully known files) and the "
+         "cases for the two bundled models (every header byte, +-3 bytes around every field and array boundary, first and "
+         "last bytes, seeded random lengths). The real decoder_init() runs on every case in its own process under ASan + "
+         "UBSan + LSan with assertions, with the library's mmap and with a link-time wrap of mmio_* that gives it a heap "
+         "block of exactly the file's length; afterwards the same process loads the intact model and decodes. ModelTrace "
+         "re-derives the verdict from the bytes the library was given and checks must-refuse, intact-loads, "
+         "intact-announces (dimensions, GMM module), intact-decodes.",
+    note="Memory errors, double frees and leaks are observed by the sanitizers; the specification decides which damages exist, "
+         "which verdict each gets, and what an intact reload must show. A process ended by the library's own E_FATAL / "
+         "allocation-failure exit while reading the damaged directory counts as reporting failure (listed as NOTE lines). "
+         "'Must refuse' is claimed only for rules a loader checks or the formats' embedded descriptions state. The heap "
+         "back end stands for 'without memory mapping' (the configuration parameter mmap is not read by this version). "
+         "Payload corruption outside a checksum is out of scope. Ten defect sites found on the pinned tree (about 20 keys) "
+         "were repaired by eight fix: commits (c1db1dc .. 4e5a9d5).",
+    technique="file formats as a TLA+ specification (byte-level readers and writers, exhaustive damage enumeration with "
+              "prefix and round-trip invariants checked by TLC); the derived cases executed on the real loaders under "
+              "sanitizers; TLC trace validation of every execution against the format specification",
+    design="I.3/C17")
+
 NOT_APPLICABLE = {
     "C10": "arbitrary-byte input safety: the oracle is memory safety/termination on unstructured bytes, which a TLA+ "
            "state machine can neither enumerate nor observe (DESIGN.md section 6)",
-    "C17": "byte-level damage to 17 MB binary model files with a sanitizer as the only oracle; not a state/ordering "
-           "property a specification can decide (DESIGN.md section 6)",
     "C18": "finiteness/range of floating-point signal processing values; TLC has no reals and the property is about "
            "numeric values, not state or order (DESIGN.md section 6)",
 }
